@@ -2032,6 +2032,65 @@ def rule_r24(ctx):
         raise AnalysisBroken("no caller releases an argument after a failed call any more (nni_http_init did)")
 
 
+# ---------------------------------------------------------------------------
+# R25: an error code kept in a local is looked at before the local is used again
+
+
+def rule_r25(ctx):
+    r = ctx.rule("C20.R25", "T12", "an error code kept in a local is looked at before the local is used again: after `v = f(...)` with f "
+                 "returning an int / nng_err status, some path from the store reads v before v is assigned again or the function "
+                 "ends -- where every path overwrites it first (the next turn of a parsing loop stores the next line's result) "
+                 "the failure, NNG_ENOMEM included, is lost and the caller is told all is well", floor=120)
+    r.own_opinion = True
+    prog = ctx.prog
+    n = 0
+    for f in prog.functions:
+        if f.cfg_failed or f.file.endswith("_test.c"):
+            continue
+        for t in f.sites():
+            if f.blocks[t.b].elems[t.i] is not t.node:
+                continue
+            m = f.expand(t.node)
+            if not (m.get("k") == "asg" and m.get("op") == "=" and m["lhs"].get("k") == "var" and m["lhs"].get("vk") == "local"):
+                continue
+            rr = m["rhs"]
+            while rr is not None and rr.get("k") == "cast":
+                rr = rr["e"]
+            rr = f.expand(rr) if rr is not None else None
+            if rr is None or rr.get("k") != "call" or not rr.get("fn"):
+                continue
+            g = prog.resolve(f, rr["fn"])
+            if g is None or g.ret not in ("int", "nng_err"):
+                continue
+            v = m["lhs"]["n"]
+            n += 1
+
+            def redef(b, i, el, v=v):
+                if el is None:
+                    return False
+                for x in walk(f.expand(el)):
+                    if x.get("k") == "asg" and x["lhs"].get("k") == "var" and x["lhs"]["n"] == v and x.get("op") == "=":
+                        return not any(y.get("k") == "var" and y["n"] == v for y in walk(x["rhs"]))
+                return False
+            seen = f.reach((t.b, t.i + 1), blocked=redef)
+            read = False
+            for (b, i) in seen:
+                if i < len(f.blocks[b].elems):
+                    el = f.blocks[b].elems[i]
+                    if el is not None and any(y.get("k") == "var" and y["n"] == v for y in walk(f.expand(el))):
+                        read = True
+                        break
+            if read:
+                r.ob(f, "%s = %s(...) at line %s is read before %s is assigned again" % (v, rr["fn"], t.line, v))
+            else:
+                ctx.fail(r, f, "status of %s stored in %s and never looked at" % (rr["fn"], v), t.line,
+                         "%s stores the status of %s in %s at line %s, and on every path %s is assigned again (or the function "
+                         "ends) before anything reads it: an error reported here is silently dropped"
+                         % (f.name, rr["fn"], v, t.line, v))
+    if n < 120:
+        raise AnalysisBroken("only %d status codes kept in locals found" % n)
+
+
 def run(ctx):
     ctx.guard(rule_r1)
     ctx.guard(rule_r2)
@@ -2056,3 +2115,4 @@ def run(ctx):
     ctx.guard(rule_r22)
     ctx.guard(rule_r23)
     ctx.guard(rule_r24)
+    ctx.guard(rule_r25)
